@@ -70,10 +70,13 @@ def drive(sc):
         events.append({"e": "diverged", "c": cn, "k": 0, "i": 0})
         break
       for x in ("A", "B"):
+        # error replies written on this connection, in order: the index (in this connection's stream) of the
+        # message whose transaction id each of them carries (0: no message of the stream has that id)
         try:
-          nerr = sum(1 for m in rb.parse_stream(o["wrote"][x]) if m["type"] == rb.ERROR)
+          errs = [xid2idx[x].get(m["xid"], 0) for m in rb.parse_stream(o["wrote"][x]) if m["type"] == rb.ERROR]
         except rb.ParseError:
-          nerr = 1
+          errs = [0]
+        nerr = len(errs)
         junk = (cls[x].index("junk") + 1) if "junk" in cls[x] else None
         for (t, xid, raw) in o["new"][x]:
           if junk and nxt[x] > junk:           # framing was given up at the junk message: anything goes
@@ -98,7 +101,7 @@ def drive(sc):
           while nxt[x] < idx:          # messages passed over before this delivery
             if nerr > 0:
               nerr -= 1
-              events.append({"e": "error", "c": x, "k": 0, "i": nxt[x]})
+              events.append({"e": "error", "c": x, "k": errs.pop(0), "i": nxt[x]})
             else:
               events.append({"e": "skipq", "c": x, "k": 0, "i": nxt[x]})
             nxt[x] += 1
@@ -110,7 +113,7 @@ def drive(sc):
         elif isopen[x]:
           while nxt[x] <= fed[x] and nerr > 0 and not (junk and nxt[x] > junk):
             nerr -= 1                  # error replies answer the next unresolved messages
-            events.append({"e": "error", "c": x, "k": 0, "i": nxt[x]})
+            events.append({"e": "error", "c": x, "k": errs.pop(0), "i": nxt[x]})
             nxt[x] += 1
           if o["residual"][x] == 0:
             while nxt[x] <= fed[x] and not (junk and nxt[x] > junk):
@@ -182,7 +185,8 @@ def run(ctx):
   ctx.rule = ("scenario = (side, message kind, fault class, parameter, position of the faulty message in a stream "
               "of 1-3 messages on connection A, feeding plan) with valid traffic on connection B; run on the real "
               "I/O loop generators over scripted sockets under a step budget; the recorded outcome events (feed, "
-              "deliver, error reply, quiet skip, close, garbage-after-desync, died, diverged) are validated by TLC "
+              "deliver, error reply with the index of the message whose transaction id it carries, quiet skip, close, "
+              "garbage-after-desync, died, diverged) are validated by TLC "
               "against FramingFaults.tla; distinct = distinct scenarios")
   ctx.assumptions = ["fault classes: bad version, unknown type, wrong-direction type, length <8, length < fixed part, "
                      "length > sent, bad embedded action/entry/property length, truncation at end of stream",
@@ -202,11 +206,20 @@ def run(ctx):
   bad1["events"].insert(len(bad1["events"]) - 1, {"e": "close", "c": "B", "k": 0, "i": 0})
   bad2 = copy.deepcopy(ok_tr[0])
   bad2["events"].insert(2, {"e": "died", "c": "A", "k": 0, "i": 0})
-  r, rej = tracecheck.validate("framing", "TraceFaults", "TraceFaults.cfg", traces + [bad1, bad2], tag="C10")
+  # ... and an error reply that carries another message's transaction id
+  err_tr = [t for t in traces if t["scenario"][2] == "TYPE_UNKNOWN" and any(e["e"] == "error" and e["k"] for e in t["events"])]
+  if not err_tr:
+    raise core.Machinery("no scenario produced an attributed error reply (negative control impossible)")
+  bad3 = copy.deepcopy(err_tr[0])
+  for e in bad3["events"]:
+    if e["e"] == "error" and e["k"]:
+      e["k"] += 1
+      break
+  r, rej = tracecheck.validate("framing", "TraceFaults", "TraceFaults.cfg", traces + [bad1, bad2, bad3], tag="C10")
   ctx.add_model("TraceFaults (%d outcome traces)" % len(traces), r)
   rejd = dict(rej)
   n = len(traces)
-  if n not in rejd or (n + 1) not in rejd:
+  if n not in rejd or (n + 1) not in rejd or (n + 2) not in rejd:
     raise tlc.TLCError("negative control trace accepted")
   for t, m in sorted(rejd.items()):
     if t >= n:
